@@ -49,3 +49,40 @@ def body(name, **kw):
 def bind_lookup(name, table, default, v):
     rt.call("bindfn", name, v=v)
     return table.get(crepr(v), default)
+
+
+# ---- module-level user functions handed to labrea.functions helpers (library pipeline steps)
+def pair(a, b):
+    rt.call("libfn", "pair", a=a, b=b)
+    return ("pair", freeze(a), freeze(b))
+
+
+def tag(x):
+    rt.call("libfn", "tag", x=x)
+    return ("tag", freeze(x))
+
+
+def truthy(x):
+    rt.call("libfn", "truthy", x=x)
+    return bool(x)
+
+
+def collect(*x):
+    return tuple(freeze(i) for i in x)
+
+
+def collect1(x):
+    """Materialise what a lazy helper (map / filter / flatmap) hands on."""
+    rt.call("libfn", "collect1")
+    return tuple(freeze(i) for i in x)
+
+
+def step(fn):
+    from labrea import Value
+    from labrea.pipeline import PipelineStep
+
+    return PipelineStep(Value(fn))
+
+
+def twice(x):
+    return [x, x]
